@@ -485,6 +485,11 @@ func c13R5(c *Ctx) {
 				_, bf, _ := fieldOf(ci.Common().Args[1])
 				c.check(bf == ps.park, ps.fn+"/park->"+bf, c.ipos(in), "chunk parked in its own direction's handshake buffer", "chunk parked in the other direction's buffer")
 				c.check(isChunk(ci.Common().Args[2]), ps.fn+"/park.value", c.ipos(in), "the value parked is the chunk just read", "the value parked is not the chunk just read")
+				// the origin flag: terminal-side pumps say "not from the tunnel", the tunnel pumps say "from the tunnel"
+				// (it decides whether in-band bytes are dropped once the tunnel is agreed)
+				fromTunnel, isC := constBool(ci.Common().Args[3])
+				wantTunnel := strings.HasPrefix(ps.fn, "tunnelRelay.")
+				c.check(isC && fromTunnel == wantTunnel, ps.fn+"/park.origin-flag", c.ipos(in), "the chunk is offered for parking with its true origin (constant)", "the chunk is offered for parking with the wrong origin flag: in-band bytes are parked (not dropped) after the tunnel was agreed, or tunnel bytes are dropped")
 			}
 		})
 		if nSend == 0 {
